@@ -601,7 +601,25 @@ def _warm():
     gc.freeze()
 
 
+def _sweep_stale():
+    """Remove scratch directories of workers that were killed in the middle of a case (early-stop runs terminate the pool)."""
+    try:
+        entries = os.listdir(WORK)
+    except OSError:
+        return
+    for d in entries:
+        parts = d.split("-")
+        if len(parts) == 3 and parts[0] == "c31" and parts[1].isdigit():
+            try:
+                os.kill(int(parts[1]), 0)
+            except ProcessLookupError:
+                shutil.rmtree(os.path.join(WORK, d), ignore_errors=True)
+            except OSError:
+                pass
+
+
 def shards(tier):
+    _sweep_stale()
     return [{"i": i} for i in range(16)]
 
 
